@@ -102,6 +102,7 @@ func checkC09(c *an.Ctx) {
 	}
 	c.OK("C09.0", "runner roles", r.run.Pos(), "sites: Run, CompileTask, buildTask, runStage, Execute")
 	processEnvEntry(c, "C09.1")
+	stableCombinators(c, "C09.1")
 	executorScope(c, "C09.6")
 
 	// (a) Run: env handed to CompileTask
@@ -523,7 +524,7 @@ func executeEnv(c *an.Ctx, rule1, rule2 string) {
 		for _, src := range an.Sources(v) {
 			s := an.FieldProv(src)
 			switch {
-			case strings.Contains(s, "DefaultExecutor.env"):
+			case strings.Contains(s, executorBaseField(p)):
 				return "process-env"
 			case strings.Contains(s, "Job.Env"):
 				return "job-env"
@@ -683,7 +684,7 @@ func executeEnv(c *an.Ctx, rule1, rule2 string) {
 				return
 			}
 			fa, ok := st.Addr.(*ssa.FieldAddr)
-			if !ok || an.TypeField(fa) != "DefaultExecutor.env" {
+			if !ok || an.TypeField(fa) != executorBaseField(p) {
 				return
 			}
 			good := false
@@ -1133,7 +1134,7 @@ func processEnvEntry(c *an.Ctx, rule string) {
 							continue
 						}
 						tf := an.TypeField(fa)
-						if tf == "DefaultExecutor.env" {
+						if tf == executorBaseField(p) {
 							nBase++
 							continue
 						}
@@ -1321,4 +1322,88 @@ func executorScope(c *an.Ctx, rule string) {
 	if nSites == 0 {
 		c.Und(rule, "executor constructors:call sites", token.NoPos, "no executor is constructed in the module")
 	}
+}
+
+// stableCombinators: the functions that decide precedence between layers (everything reachable from
+// Variables.Merge / With / FromMap inside pkg/variables) do not order their entries with an unstable sort —
+// sort.Slice and sort.Sort make no promise about the relative order of elements that compare equal, and "the
+// entry added last wins" among equal names is exactly such an order (library summary: package sort).
+func stableCombinators(c *an.Ctx, rule string) {
+	p := c.P
+	var roots []*ssa.Function
+	for _, name := range []string{"Merge", "With", "Set", "Map"} {
+		if f := p.Func("pkg/variables", "Variables", name); f != nil {
+			roots = append(roots, f)
+		}
+	}
+	if f := p.Func("pkg/variables", "", "FromMap"); f != nil {
+		roots = append(roots, f)
+	}
+	if len(roots) == 0 {
+		c.Und(rule, "variables:combinators", token.NoPos, "Merge / With / FromMap not found")
+		return
+	}
+	reach := p.Reach(roots, func(e an.CallEdge) bool { return an.InModule(e.Callee) && inPkgs("pkg/variables")(e.Callee) })
+	bad := false
+	for f := range reach {
+		an.EachInstr(f, func(in ssa.Instruction) {
+			call, ok := in.(*ssa.Call)
+			if !ok {
+				return
+			}
+			switch an.ShortCallee(&call.Call) {
+			case "sort.Slice", "sort.Sort":
+				bad = true
+				c.Bad(rule, an.Short(f)+":"+an.ShortCallee(&call.Call), call.Pos(), "%s orders the entries of a variables container with %s, which is not stable: which of two entries with the same name comes last — the one that is kept — is not determined, so a lower level can win over a higher one", an.Short(f), an.ShortCallee(&call.Call))
+			}
+		})
+	}
+	if !bad {
+		c.OK(rule, "variables:stable-order", roots[0].Pos(), "no unstable sort in the %d functions that combine variable layers", len(reach))
+	}
+}
+
+var executorBaseFieldCache = map[*an.Prog]string{}
+
+// executorBaseField names the field of the executor that holds the environment of the taskctl process: the field
+// of an executor type (pkg/executor, has Execute) into which what os.Environ() returned is stored — as it is, or
+// re-shaped by a helper that is handed os.Environ(). "DefaultExecutor.env" when none is found.
+func executorBaseField(p *an.Prog) string {
+	if f, ok := executorBaseFieldCache[p]; ok {
+		return f
+	}
+	found := "DefaultExecutor.env"
+	for _, fn := range p.Funcs {
+		if !inPkgs("pkg/executor")(fn) {
+			continue
+		}
+		an.EachInstr(fn, func(in ssa.Instruction) {
+			st, ok := in.(*ssa.Store)
+			if !ok {
+				return
+			}
+			fa, ok := st.Addr.(*ssa.FieldAddr)
+			if !ok || !isExecutorType(fa.X.Type()) {
+				return
+			}
+			for _, src := range an.Sources(st.Val) {
+				call, ok := src.(*ssa.Call)
+				if !ok {
+					continue
+				}
+				if an.ShortCallee(&call.Call) == "os.Environ" {
+					found = an.TypeField(fa)
+				}
+				for _, a := range call.Call.Args {
+					for _, as := range an.Sources(a) {
+						if ac, ok := as.(*ssa.Call); ok && an.ShortCallee(&ac.Call) == "os.Environ" {
+							found = an.TypeField(fa)
+						}
+					}
+				}
+			}
+		})
+	}
+	executorBaseFieldCache[p] = found
+	return found
 }
